@@ -179,7 +179,10 @@ func c07Apply(x *cpuCtx, spec map[string]c03Spec, t c07Trans) (next byte, sig, w
 		mem.Set(0x0040, byte(nextAddr))
 		mem.Set(0x0041, byte(nextAddr>>8))
 		st := ref65816.State{K: 0x00, PC: c07Base & 0xFFFF, P: cpuP, S: 0x01FF, D: 0x0000, DBR: 0x7E, C: 0x0000, X: 0x10, Y: 0x20}
-		m.Load(mkRaw(st, 0, 0))
+		// transitions made through a clone start the CPU from a "dirty" object: made by InitFrom, no-op
+		// OnPC/OnWDM observers installed, junk in the non-architectural fields (none of which may move an
+		// instruction boundary)
+		m.Load(mkRaw(st, t.Via&1, 0))
 		_, _, spn := m.Step()
 		if spn != nil {
 			return 0, "unexplained:cpu-panics:" + t.Method, fmt.Sprintf("%s: %s panicked: %v", desc(), m.Name(), spn)
